@@ -12,7 +12,7 @@ from contextlib import contextmanager
 
 ROOT = os.path.dirname(os.path.dirname(os.path.abspath(__file__)))
 LEAN_DIR = os.path.join(ROOT, "lean")
-DRIVER = os.path.join(LEAN_DIR, ".lake", "build", "bin", "snowdriver")
+DRIVER = os.environ.get("VERIF_DRIVER") or os.path.join(LEAN_DIR, ".lake", "build", "bin", "snowdriver")
 REPO = os.environ.get("VERIF_REPO", "/repo")
 
 warnings.filterwarnings("ignore")
